@@ -544,6 +544,15 @@ def _parse_float(value: Any) -> float:
     return float(value)
 
 
+def _map_key_from_json(key_type: str, key: Any) -> Any:
+    """JSON object keys are always strings: convert a key back to the map's key type."""
+    if isinstance(key, str) and key_type != TYPE_STRING:
+        if key_type == TYPE_BOOL:
+            return {"true": True, "false": False}[key]
+        return int(key)
+    return key
+
+
 def _enum_to_json(enum_class: Type[Enum], value: int) -> Union[str, int]:
     """The name of the enum member, or the number itself if the enum does not define it."""
     member = enum_class.try_value(value)
@@ -1646,6 +1655,12 @@ class Message(ABC):
                 continue
             if value is None:
                 continue
+
+            if meta.map_types:
+                value = {
+                    _map_key_from_json(meta.map_types[0], k): v
+                    for k, v in value.items()
+                }
 
             if meta.proto_type == TYPE_MESSAGE:
                 sub_cls = cls._betterproto.cls_by_field[field_name]
